@@ -229,6 +229,83 @@ func scripts() map[string]Script {
 				blk(6*time.Second, fee),
 			}
 		},
+		// delete-after-full-slash: the only validator holding an asset is slashed by exactly 100% (tokens stay staked,
+		// validator shares are gone); governance then tries to update and delete that asset
+		"delete-after-full-slash": func(g *Gen, c *Config) []Step {
+			c.Assets = []AssetSpec{
+				{Denom: "aaa", Weight: "0.5", WMin: "0", WMax: "10", TakeRate: "0", StartDelay: -int64(time.Hour), Mag: "1000000"},
+				{Denom: "bbb", Weight: "1", WMin: "0", WMax: "10", TakeRate: "0", StartDelay: -int64(time.Hour), Mag: "1000000"},
+			}
+			c.Fund = "1000000000"
+			c.SlashDouble = "1"
+			fee := "2000000stake"
+			sp := func(signer string) *GovSpec {
+				return &GovSpec{Signer: signer, Denom: "aaa", Weight: "0.3", WMin: "0", WMax: "5", Take: "0.02", Rate: "1", KeepClock: true}
+			}
+			return []Step{
+				{K: "delegate", A: 0, V: 1, Den: "aaa", Amt: "500000"},
+				{K: "delegate", A: 1, V: 2, Den: "bbb", Amt: "700000"},
+				blk(6*time.Second, fee),
+				{K: "block", Block: &BlockSpec{DtNs: int64(6 * time.Second), Fees: fee, Evidence: []Evidence{{Val: 1, HeightBack: 1, Power: 1000000}}}},
+				blk(6*time.Second, fee),
+				{K: "gov_delete", A: 1, Gov: sp("actor")},
+				{K: "gov_delete", A: 1, Gov: sp("auth")},
+				{K: "legacy_delete", Gov: sp("auth")},
+				{K: "gov_update", A: 1, Gov: sp("auth")},
+				{K: "gov_delete", A: 1, Gov: sp("auth")},
+				blk(6*time.Second, fee),
+			}
+		},
+		// empty-whitelist: the chain runs for many claim intervals without any whitelisted asset (the only one is
+		// deleted), then governance whitelists an asset with a high take rate and stake arrives
+		"empty-whitelist": func(g *Gen, c *Config) []Step {
+			c.Assets = []AssetSpec{{Denom: "aaa", Weight: "0.5", WMin: "0", WMax: "10", TakeRate: "0.5", StartDelay: -int64(time.Hour), Mag: "1000000"}}
+			c.Fund = "1000000000"
+			c.TakeIntervalNs = int64(time.Minute)
+			c.RewardDelayNs = int64(time.Minute)
+			fee := "2000000stake"
+			del := &GovSpec{Signer: "auth", Denom: "aaa"}
+			cr := &GovSpec{Signer: "auth", Denom: "bbb", Weight: "0.5", WMin: "0", WMax: "10", Take: "0.5", Rate: "1"}
+			return []Step{
+				blk(6*time.Second, fee),
+				{K: "gov_delete", Gov: del},
+				blk(6*time.Second, fee),
+				blk(13*time.Minute, fee),
+				blk(6*time.Second, fee),
+				{K: "gov_create", Gov: cr},
+				{K: "delegate", A: 0, V: 1, Den: "bbb", Amt: "1000000000"},
+				blk(6*time.Second, fee),
+				blk(61*time.Second, fee),
+				blk(6*time.Second, fee),
+				blk(61*time.Second, fee),
+				blk(6*time.Second, fee),
+			}
+		},
+		// jail-without-slash: downtime slashing fraction 0 (x/staking then calls no slash hook): a validator with
+		// alliance stake is jailed for downtime in blocks without any other trigger, followed by quiet blocks
+		"jail-without-slash": func(g *Gen, c *Config) []Step {
+			c.SlashDowntime = "0"
+			c.SignedWindow = 4
+			// no decay and no take rate: nothing but the validator's status change may queue a rebalance
+			c.Assets = []AssetSpec{
+				{Denom: "aaa", Weight: "0.5", WMin: "0", WMax: "10", TakeRate: "0", StartDelay: -int64(time.Hour), Mag: "1000000"},
+				{Denom: "bbb", Weight: "0.2", WMin: "0", WMax: "10", TakeRate: "0", StartDelay: -int64(time.Hour), Mag: "1000000"},
+			}
+			fee := "2000000stake"
+			d := c.Assets[0].Denom
+			st := []Step{
+				{K: "delegate", A: 0, V: 1, Den: d, Amt: c.Assets[0].Mag},
+				{K: "delegate", A: 1, V: 2, Den: d, Amt: c.Assets[0].Mag},
+				{K: "ndelegate", A: 2, V: 3, Amt: "3000000"},
+				blk(6*time.Second, fee),
+				blk(6*time.Second, fee),
+			}
+			for i := 0; i < 8; i++ {
+				st = append(st, Step{K: "block", Block: &BlockSpec{DtNs: int64(6 * time.Second), Fees: fee, Absent: []int{2}}})
+			}
+			st = append(st, blk(6*time.Second, fee), blk(6*time.Second, fee), blk(6*time.Second, fee))
+			return st
+		},
 		// drain-and-refill: two assets on the same validators, non-integer share ratios after a slash, every
 		// delegator exits one asset completely (through different validators, leaving rounding dust behind),
 		// the asset's staked total returns to zero, then it is staked again
@@ -307,6 +384,8 @@ func scripts() map[string]Script {
 		// each complete exit leaves validator-share dust that survives, and the last exit drains the asset
 		"drain-slashed": drainSlashed(false),
 		"drain-slashed-2": drainSlashed(true),
+		"drain-dust-a": drainDust(false),
+		"drain-dust-b": drainDust(true),
 		// gov-table: every governance message x every signer kind with otherwise valid fields, in the asset
 		// states absent / empty / staked, plus the three legacy contents (with and without ValidateBasic)
 		"gov-table": func(g *Gen, c *Config) []Step {
@@ -400,20 +479,20 @@ func checkDefs() map[string]*CheckDef {
 		},
 		{
 			Prop: "C03",
-			Scripts: []string{"drain-refill", "drain-exact", "drain-slashed", "drain-slashed-2", "validator-removed"},
+			Scripts: []string{"drain-refill", "drain-exact", "drain-slashed", "drain-slashed-2", "validator-removed", "drain-dust-a", "drain-dust-b"},
 			ProbeEvery: 3,
 			Runs: []ProfRun{{"core", 64, 1200}, {"extreme", 48, 900}},
 			Mons: func(r *Runner) []Monitor { return []Monitor{NewMonC03(r)} },
-			Required: []string{"C03.slash", "C03.take-rate", "C03.tx.undelegate", "C03.tx.redelegate", "C03.validator-removed-with-delegations"},
+			Required: []string{"C03.slash", "C03.take-rate", "C03.tx.undelegate", "C03.tx.redelegate", "C03.validator-removed-with-delegations", "C03.drain-resets-foreign-dust"},
 			Rule: "seeded random histories (core/extreme); after every step the share sums are recomputed from an independent decoder of the raw module store and compared exactly with the recorded totals, negatives and reset-on-drain are checked, and the module's registered invariants plus all SDK invariants (crisis) run every block; a situation class = step kind x slash-fraction class x drained-asset/take-rate situations",
 			Assumptions: commonAssumptions,
 		},
 		{
 			Prop: "C10",
-			Scripts: []string{"warmup-quiet", "native-full-exit"},
+			Scripts: []string{"warmup-quiet", "native-full-exit", "jail-without-slash"},
 			Runs: []ProfRun{{"native", 64, 1200}, {"core", 32, 600}},
 			Mons: func(r *Runner) []Monitor { return []Monitor{NewMonC10(r)} },
-			Required: []string{"C10.quiet-block", "C10.trigger.slash", "C10.trigger.ndelegate", "C10.trigger.nundelegate", "C10.trigger.full-native-undelegation"},
+			Required: []string{"C10.quiet-block", "C10.trigger.slash", "C10.trigger.ndelegate", "C10.trigger.nundelegate", "C10.trigger.full-native-undelegation", "C10.trigger.left-bonded-set-without-slash"},
 			Rule: "seeded random histories mixing alliance operations with native delegations, partial and full undelegations, native redelegations, real slashes, jailing/unjailing and warm-up expiry; after every end-of-block the target of every bonded validator is recomputed from the post-state independently of the module's code path and compared with the module's real staking delegation (tolerance 2 units); a situation class = (rebalance flag set before block end, number of non-bonded validators, warm-up assets present) plus the trigger kinds seen",
 			Assumptions: commonAssumptions,
 		},
@@ -427,10 +506,10 @@ func checkDefs() map[string]*CheckDef {
 		},
 		{
 			Prop: "C16",
-			Scripts: []string{"gov-table"},
+			Scripts: []string{"gov-table", "delete-after-full-slash"},
 			Runs: []ProfRun{{"gov", 64, 1200}},
 			Mons: func(r *Runner) []Monitor { return []Monitor{NewMonC16(r)} },
-			Required: []string{"C16.gov_create/auth", "C16.gov_update/auth", "C16.gov_delete/auth", "C16.gov_params/auth", "C16.gov_update/actor", "C16.legacy_create", "C16.legacy_update", "C16.legacy_delete", "C16.boundary/gov_update/take=1", "C16.boundary/gov_create/take=1"},
+			Required: []string{"C16.gov_create/auth", "C16.gov_update/auth", "C16.gov_delete/auth", "C16.gov_params/auth", "C16.gov_update/actor", "C16.legacy_create", "C16.legacy_update", "C16.legacy_delete", "C16.boundary/gov_update/take=1", "C16.boundary/gov_create/take=1", "C16.gov_delete/auth/staked-no-shares"},
 			Rule: "generated governance traffic: 4 messages and 3 legacy contents x signer in {authority, actor, module accounts, empty, malformed} x per-field values {nil, negative, 0, boundary, huge} x asset state {absent, empty, staked, decaying, warm-up}, interleaved with user operations; success implies signer = authority, failure implies byte-identical module store, stored-asset predicate after every step of every history; a situation class = (message kind, signer kind, asset state, accepted/rejected/panicked)",
 			Assumptions: commonAssumptions,
 		},
@@ -509,9 +588,10 @@ func timeDefs() []*CheckDef {
 	return []*CheckDef{
 		{
 			Prop: "C09",
+			Scripts: []string{"empty-whitelist"},
 			Runs: []ProfRun{{"time", 64, 1200}, {"core", 32, 600}, {"extreme", 16, 300}},
 			Mons: func(r *Runner) []Monitor { return []Monitor{NewMonC09(r)} },
-			Required: []string{"C09.deduct/n1", "C09.deduct/n2-9", "C09.deduct/n10+", "C09.clock/advanced-n-intervals", "C09.clock/no-eligible-asset", "C09.skip/startedfalse", "C09.floor-at-one"},
+			Required: []string{"C09.deduct/n1", "C09.deduct/n2-9", "C09.deduct/n10+", "C09.clock/advanced-n-intervals", "C09.clock/no-eligible-asset", "C09.clock/empty-whitelist", "C09.skip/startedfalse", "C09.floor-at-one"},
 			Rule: "around every end-of-block of seeded histories (rates 1e-18..0.999, claim intervals 1s..1h, gaps 1ns..1000 intervals, deposits and withdrawals between deductions, dust-only periods): trigger iff block time > clock + interval, n = floor((T-clock)/interval), new total = floor(T*(1-r)^n) against a 2048-bit reference power within the 18-digit budget (never to zero), fee-collector transfer in the event log equals the difference exactly, clock advances by exactly n intervals, every position shrinks by the common factor, assets before their start time or with rate 0 untouched, and a reference deposit log decides retroactive charging; a situation class = (intervals class, rate class, magnitude class) of deductions, skip reasons, clock outcomes",
 			Assumptions: commonAssumptions,
 		},
@@ -608,6 +688,47 @@ func drainSlashed(second bool) Script {
 			blk(6*time.Second, fee),
 		)
 		return st
+	}
+}
+
+// drainDust: V2 and V3 are slashed by exactly one half; one of them (which one: variant) holds a position whose
+// complete exit leaves validator-share dust worth less than 0.01 token behind, the other exits cleanly; then
+// the large unslashed position on V1 exits and drains the asset to exactly zero: the dust record on the other
+// validator has to be reset too. Two variants, so that the dust sits on a record that is not the first one in
+// store order whatever that order is.
+func drainDust(onV2 bool) Script {
+	return func(g *Gen, c *Config) []Step {
+		c.NVals = 4
+		c.ValStake = []int64{3_000_000, 4_000_000, 5_000_000, 6_000_000}
+		c.Assets = []AssetSpec{
+			{Denom: "aaa", Weight: "0", WMin: "0", WMax: "10", TakeRate: "0", StartDelay: -int64(time.Hour), Mag: "1000000"},
+			{Denom: "bbb", Weight: "0", WMin: "0", WMax: "10", TakeRate: "0", StartDelay: -int64(time.Hour), Mag: "1000000"},
+		}
+		c.Fund = "10000000000"
+		c.UnbondingNs = int64(time.Hour)
+		c.SlashDouble = "0.5"
+		fee := "2000000stake"
+		a2, a3 := "999", "2000001"
+		if onV2 {
+			a2, a3 = a3, a2
+		}
+		return []Step{
+			{K: "delegate", A: 0, V: 1, Den: "aaa", Amt: "1000000000"},
+			{K: "delegate", A: 1, V: 2, Den: "aaa", Amt: a2},
+			{K: "delegate", A: 2, V: 3, Den: "aaa", Amt: a3},
+			{K: "delegate", A: 4, V: 4, Den: "bbb", Amt: "500000"},
+			blk(6*time.Second, fee), blk(6*time.Second, fee),
+			{K: "block", Block: &BlockSpec{DtNs: int64(6 * time.Second), Fees: fee, Evidence: []Evidence{{Val: 2, HeightBack: 1}, {Val: 3, HeightBack: 1}}}},
+			blk(6*time.Second, fee),
+			{K: "undelegate", A: 1, V: 2, Den: "aaa", Amt: "bal"},
+			{K: "undelegate", A: 2, V: 3, Den: "aaa", Amt: "bal"},
+			blk(6*time.Second, fee),
+			{K: "undelegate", A: 0, V: 1, Den: "aaa", Amt: "bal"},
+			blk(6*time.Second, fee),
+			{K: "delegate", A: 1, V: 2, Den: "aaa", Amt: "500"},
+			{K: "delegate", A: 0, V: 3, Den: "aaa", Amt: "7"},
+			blk(6*time.Second, fee),
+		}
 	}
 }
 
